@@ -450,6 +450,23 @@ fn one_case(r: &mut Rng, id: usize, out: &mut String, big: bool) {
             let n = gen_dim(r);
             let k = r.below(5);
             let mut ps: Vec<Polytope> = (0..k).map(|_| gen_poly(r, n, 4)).collect();
+            // neighbouring operands with the same coefficient matrix and other bounds (x <= 3 next to x <= 1, a
+            // translated copy): each operand counts
+            if k >= 1 && r.chance(1, 3) {
+                let j = r.below(k);
+                let base = ps[j].clone();
+                let mut b = base.bias.to_owned();
+                for v in b.iter_mut() {
+                    *v += (r.range(-4, 4) as f64) / 2.0;
+                }
+                let twin = Polytope::from_mats(base.mat.to_owned(), b);
+                if r.chance(1, 2) {
+                    ps.insert(j + 1, twin);
+                } else {
+                    ps.insert(j, twin);
+                }
+            }
+            let k = ps.len();
             let dim = if r.chance(1, 6) { other_dim(r, n) } else { n };
             if mal && k > 0 {
                 let j = r.below(k);
